@@ -12,15 +12,26 @@ import (
 
 // c07Request builds a request whose top Via names a host/port different from the source.
 func c07Request(L int, rportKind, recvKind int) (text, via0, via1 string) {
-	via0 = "SIP/2.0/UDP 192.0.2.1:7777;branch=z9hG4bK" + rt.Str("br", "alnum", 1, L)
+	branch := ";branch=z9hG4bK" + rt.Str("br", "alnum", 1, L)
+	params := ""
 	switch rportKind {
 	case 1:
-		via0 += ";rport"
+		params += ";rport"
 	case 2:
-		via0 += ";rport=" + genPort() // pre-filled (spoofed)
+		params += ";rport=" + genPort() // pre-filled (spoofed)
 	}
 	if recvKind == 1 {
-		via0 += ";received=192.0.2.99" // spoofed
+		if rt.Bool("received-before-rport") {
+			params = ";received=192.0.2.99" + params // spoofed
+		} else {
+			params += ";received=192.0.2.99"
+		}
+	}
+	// the parameters may stand before or after the branch
+	if rt.Bool("params-before-branch") {
+		via0 = "SIP/2.0/UDP 192.0.2.1:7777" + params + branch
+	} else {
+		via0 = "SIP/2.0/UDP 192.0.2.1:7777" + branch + params
 	}
 	if rt.Bool("extra-param") {
 		via0 += ";" + rt.Str("xk", "[a-qs-z]", 1, L) + "=" + rt.Str("xv", clsToken, 1, L)
